@@ -24,11 +24,17 @@ def gen_scenario(rng, tier, prepop_kinds=()):
     for k in range(ntor):
         version = rng.choice([1, 2, 3])
         layout = rng.choice(["single", "flat", "flat", "nested", "nested", "empties", "boundary", "samebase"])
+        if rng.random() < 0.06:
+            layout = "large"
         if layout == "boundary":
             n = rng.randint(2, 5)
             files = [[f"b{j}", rng.choice([pl, 2 * pl, 3 * pl, pl, 2 * pl + rng.choice([0, 0, 9, 1]), 77]),
                       rng.randrange(1 << 30)] for j in range(n)]
             tree = {"name": names[k], "single": False, "files": files, "dirs": [], "layout": "boundary"}
+        elif layout == "large":
+            files = [["sub/big.bin", rng.choice([1 << 20, (1 << 20) + 12345, 3 * (1 << 20) + 7, 2 * (1 << 20)]) +
+                      rng.choice([0, 1, 4096]), rng.randrange(1 << 30)], ["small.txt", rng.choice([0, 40000, 77]), rng.randrange(1 << 30)]]
+            tree = {"name": names[k], "single": False, "files": files, "dirs": [], "layout": "large"}
         elif layout == "samebase":
             size = rng.choice([5, pl, pl + 7, 20000])
             files = [["a/x", size, rng.randrange(1 << 30)], ["b/x", size if rng.random() < 0.6 else size + 3,
@@ -56,6 +62,9 @@ def gen_scenario(rng, tier, prepop_kinds=()):
     for kind in prepop_kinds:
         t = rng.randrange(ntor)
         f = rng.randrange(len(torrents[t]["tree"]["files"]))
+        big = [(ti, 0) for ti, tt in enumerate(torrents) if tt["tree"]["layout"] == "large"]
+        if big and kind in ("shorter", "shorter-wrong", "wrong"):
+            t, f = big[0]
         prepop.append({"torrent": t, "file": f, "kind": kind, "cseed": rng.randrange(1 << 30)})
     return {"pl_exp": exp, "torrents": torrents, "nsearch": nsearch, "decoys": decoys, "prepop": prepop,
             "junk": rng.random() < 0.7, "seed": rng.randrange(1 << 30), "enum": rng.choice(["sorted", "reverse", "shuffle", "shuffle"]),
@@ -183,6 +192,8 @@ def build_world(case, scratch):
             data = content(f[2], f[1])[:max(0, f[1] - 1 - p["cseed"] % max(1, f[1]))]
         elif p["kind"] == "shorter-wrong":
             data = content(p["cseed"], max(1, f[1] - 1 - p["cseed"] % max(1, f[1])))     # not a prefix of the genuine file
+            if f[1] > (1 << 20) + 10:
+                data = content(p["cseed"], f[1] - 1 - p["cseed"] % (f[1] - (1 << 20) - 1))   # keeps >= 1 MiB of wrong bytes
         else:  # unrelated
             target = os.path.join(world["dest"], m["tree"]["name"] if not m["tree"]["single"] else "", "unrelated.dat")
             os.makedirs(os.path.dirname(target), exist_ok=True)
@@ -530,7 +541,8 @@ class C19:
             "no such event and the snapshot of everything outside the destination is unchanged (raising or skipping "
             "are acceptable); non-trivial when the naive join would escape and a candidate exists; distinct by "
             "(version, hostile alphabet class, position, route)")
-    required = ("escaping_cases", "candidate_matched", "rebuild_calls", "benign_copy_events")
+    required = ("escaping_cases", "candidate_matched", "rebuild_calls", "benign_copy_events",
+                "escaping_cases_metafile_directory")
     assumptions = ("symlinks are out of scope", "the veto makes blocked operations fail with PermissionError, which the "
                    "code under test may propagate")
 
@@ -554,7 +566,7 @@ class C19:
             files.append([comps, rng.choice([5, 100, 16384, 20000]), rng.randrange(1 << 30)])
         name = h1 if pos in ("name", "both") else rng.choice(["T", "pay load"])
         return {"version": version, "pos": pos, "name": name, "files": files, "via": rng.choice(["lib", "cli"]),
-                "single": False, "seed": rng.randrange(1 << 30)}
+                "single": False, "seed": rng.randrange(1 << 30), "meta_as_dir": rng.random() < 0.35}
 
     @staticmethod
     def run(case, scratch):
@@ -586,9 +598,11 @@ class C19:
             raw = rt.build(name, files=files, pl=16384, version=case["version"])
         except Exception as e:
             return {"inconclusive": "reference encoder rejected the hostile shape: " + repr(e)}
-        mpath = os.path.join(sandbox, "m.torrent")
+        os.makedirs(os.path.join(sandbox, "metas"))
+        mpath = os.path.join(sandbox, "metas", "m.torrent")
         with open(mpath, "wb") as fd:
             fd.write(raw)
+        marg = os.path.dirname(mpath) if case.get("meta_as_dir") else mpath    # -m accepts a folder of metafiles
         # would the naive join escape?
         escapes = False
         droot = os.path.realpath(dest)
@@ -619,10 +633,10 @@ class C19:
         env.AUDIT.start(veto=veto)
         try:
             if case["via"] == "cli":
-                oc = drive.cli_execute(["rebuild", "-m", mpath, "-c", search, "-d", dest])
+                oc = drive.cli_execute(["rebuild", "-m", marg, "-c", search, "-d", dest])
             else:
                 try:
-                    oc = drive.Outcome(ret=rebuild.Assembler([mpath], [search], dest).assemble_torrents())
+                    oc = drive.Outcome(ret=rebuild.Assembler([marg], [search], dest).assemble_torrents())
                 except BaseException as exc:  # noqa
                     oc = drive.Outcome(exc=exc, tb="")
         finally:
@@ -644,6 +658,8 @@ class C19:
             viol.append(oracles.V("outside-of-destination-changed", diff=d))
         if escapes:
             counters["escaping_cases"] = 1
+            if case.get("meta_as_dir"):
+                counters["escaping_cases_metafile_directory"] = 1
         if captured["matched"]:
             counters["candidate_matched"] = 1
         if not escapes and any(e == "shutil.copyfile" for e, _ in events):
@@ -655,7 +671,7 @@ class C19:
         alpha = sorted({cls(case["name"])} | {cls(c) for f in case["files"] for c in f[0][:-1]})
         return {"violations": viol, "counters": counters, "reach": reach.collect(),
                 "nontrivial": escapes,
-                "sig": [case["version"], alpha, case["pos"], case["via"], bool(captured["matched"])],
+                "sig": [case["version"], alpha, case["pos"], case["via"], bool(captured["matched"]), bool(case.get("meta_as_dir"))],
                 "sample": {"version": case["version"], "name": case["name"], "files": [f[0] for f in case["files"]],
                            "naive_join_escapes": escapes, "copy_attempts": captured["matched"],
                            "outcome": oc.ret if oc.ok else oc.excname(), "vetoed_events": len(vetoed),
